@@ -71,19 +71,31 @@ def load(text):
         return MosFile.from_string(text)
 
 
-def add(ro, msg):
-    """``ro += msg`` on live objects; returns the observation (err, warns, tree after)."""
+def add(ro, msg, via='add'):
+    """``ro += msg`` on live objects (via='merge': the documented ``msg.merge(ro)``, which is what
+    ``+`` calls on a running order that is not completed); returns the observation (err, warns, tree after)."""
     err = None
     with warnings.catch_warnings(record=True) as w:
         warnings.simplefilter('always')
         try:
-            r = ro + msg
+            r = (ro + msg) if via == 'add' else msg.merge(ro)
             if r is not ro:
                 err = 'crash:ReturnedOtherObject'
         except Exception as e:  # noqa: BLE001
             err = err_name(e)
     out = {'err': err, 'warns': lib_warnings(w), 'ro': treejson.to_tree(ro.xml),
            'completed_attr': bool(ro.completed)}
+    if ro.xml.find('mosromgrmeta') is not None:
+        # the running order is completed now: the same message once more, with every warning promoted to
+        # an error (python -W error) - the refusal must not depend on the interpreter's warning filter
+        with warnings.catch_warnings():
+            warnings.simplefilter('error')
+            try:
+                ro + msg
+                werr = None
+            except Exception as e:  # noqa: BLE001
+                werr = err_name(e)
+        out['werror'] = {'err': werr, 'unchanged': treejson.to_tree(ro.xml) == out['ro']}
     if out['completed_attr'] or ro.xml.find('mosromgrmeta') is not None:
         # a completed running order written out and read back
         try:
